@@ -30,6 +30,12 @@ fn main() {
         "C03" => dispatch(props::c03::C03, &args),
         "C04" => dispatch(props::c04::C04, &args),
         "C05" => dispatch(props::c05::C05, &args),
+        "C09" => dispatch(props::c09::C09, &args),
+        "C10" => dispatch(props::c10::C10, &args),
+        "C13" => dispatch(props::c13::C13, &args),
+        "C14" => dispatch(props::c14::C14, &args),
+        "C15" => dispatch(props::c15::C15, &args),
+        "C18" => dispatch(props::c18::C18, &args),
         _ => {
             eprintln!("usage: vcheck <C01..C18> <quick|thorough> | vcheck <ID> --replay <file>");
             2
